@@ -198,12 +198,14 @@ func (a *AddrManager) safelyCheckPassword(privPass []byte) error {
 }
 
 func unmarshalMasterPrivKey(masterPrivKey *snacl.SecretKey, privPass []byte, masterPrivParams []byte) error {
-	if !ValidatePassphrase(privPass) {
-		return ErrInvalidPassphrase
-	}
 	err := masterPrivKey.Unmarshal(masterPrivParams)
 	if err != nil {
 		return err
+	}
+	// (after Unmarshal: the caller zeroes the key it handed in, which
+	// Unmarshal allocates)
+	if !ValidatePassphrase(privPass) {
+		return ErrInvalidPassphrase
 	}
 	err = masterPrivKey.DeriveKey(&privPass)
 	if err != nil {
